@@ -128,6 +128,24 @@ def replay(p):
         Mx = np.concatenate(rows, axis=0)
         bad = Mx.shape[0] != Mx.shape[1] or not H.close(Mx @ Mx.T, np.eye(Mx.shape[0]), 1e-9)
         return bad, f'Clebsch-Gordan coefficients ({j1},{j2}) are not an orthogonal change of basis'
+    if what == 'irrep_ang':
+        g = np.random.default_rng(5)
+        base = [(p.get('alpha', 0.0), p.get('beta', 0.0), p.get('gamma', 0.0))] + [tuple(g.uniform(-7, 7, size=3)) for _ in range(6)]
+        for al0, be, ga0 in base:
+            for ka in (-2, -1, 0, 1, 2):
+                for kg in (-1, 0, 1):
+                    al, ga = al0 + 2 * np.pi * ka, ga0 + 2 * np.pi * kg
+                    U = L.angle_to_su2(al, be, ga)
+                    for j2 in (1, 2, 3):
+                        D = L.get_su2_irrep(j2, al, be, ga)
+                        if j2 == 1 and not H.close(D, U, 1e-9):
+                            return True, f'get_su2_irrep(1, alpha, beta, gamma) != angle_to_su2(alpha, beta, gamma) at ({al:.6g},{be:.6g},{ga:.6g})'
+                        if not H.close(D @ D.conj().T, np.eye(j2 + 1), 1e-9):
+                            return True, f'get_su2_irrep({j2}, angles) is not unitary at ({al:.6g},{be:.6g},{ga:.6g})'
+                        D0 = L.get_su2_irrep(j2, al0, be, ga0)
+                        if not H.close(D, (-1) ** (j2 * (ka + kg)) * D0, 1e-9):
+                            return True, f'get_su2_irrep({j2}, alpha+2pi*{ka}, beta, gamma+2pi*{kg}) != (-1)^(2j(ka+kg)) get_su2_irrep({j2}, alpha, beta, gamma) at ({al0:.6g},{be:.6g},{ga0:.6g})'
+        return False, 'spin-j matrices from Euler angles consistent'
     if what == 'irrep':
         j2 = p['j2']
         U1, U2 = H.from_payload_cx(p, 'U1'), H.from_payload_cx(p, 'U2')
@@ -217,6 +235,33 @@ def run(chk):
         chk.add('angle_to_su2 unitary with det 1 for all angles', pre, ir.band(eqs(mm(U, dagger(U)), np.eye(2, dtype=object)), H.eq_sc(detU, 1)), key='angle_to_su2 not in SU(2)', replay=rp)
         for i, (x, y) in enumerate(zip(H.elems(RU), H.elems(R))):
             chk.add(f'su2_to_so3(angle_to_su2) == angle_to_so3 entry {i}', pre, H.eq_sc(x, y), key='angle_to_su2 / angle_to_so3 inconsistent', replay=rp)
+    # ---- (b2) spin-j matrices from Euler angles, for ALL real angles (no range restriction): j=1/2 is angle_to_su2 itself, every j is unitary
+    chk.fn('numqi.group.get_su2_irrep (three-angle signature)', 'numqi.group._lie._get_su2_irrep_get_coeff')
+    for j2 in (1, 2) if quick else (1, 2, 3):
+        def f_irr(j2=j2):
+            return L.get_su2_irrep(j2, ang['alpha'], ang['beta'], ang['gamma']), L.angle_to_su2(ang['alpha'], ang['beta'], ang['gamma'])
+        try:
+            paths, st = H.run_paths(f_irr, [], np_facade=fac, feas_timeout_ms=2000)
+        except S.EngineError as e:
+            chk.engine_error(f'get_su2_irrep j2={j2}', e)
+            continue
+        chk.add_path_stats(st)
+        chk.configurations += 1
+        for pi, path in enumerate(paths):
+            pre = path.pc + path.facts
+            rp = ('c15', lambda m, path=path: angle_payload(m, ang, path.ctx, 'irrep_ang', {}))
+            if path.status != 'return':
+                chk.add(f'get_su2_irrep({j2}, angles) raises {type(path.value).__name__}', pre, ir.FALSE, key='get_su2_irrep raises', replay=rp)
+                continue
+            D, U = path.value
+            if j2 == 1:
+                for i, (x, y) in enumerate(zip(H.elems(D), H.elems(U))):
+                    chk.add(f'get_su2_irrep(1, alpha, beta, gamma)[{i}] == angle_to_su2(alpha, beta, gamma)[{i}] for all real angles', pre, H.eq_sc(x, y), key='get_su2_irrep(j=1/2) != angle_to_su2', replay=rp)
+            with path.resume():
+                DD = mm(D, dagger(D))
+                pre2 = pre + path.ctx.facts
+            for i, (x, y) in enumerate(zip(H.elems(DD), H.elems(np.eye(j2 + 1, dtype=object)))):
+                chk.add(f'get_su2_irrep({j2}, alpha, beta, gamma) unitary for all real angles: (D D^dag)[{i}]', pre2, H.eq_sc(x, y), key='get_su2_irrep not unitary', replay=rp, kind=('probe_forall' if j2 >= 3 else 'forall'))
     # ---- (c) round trips in the three regimes
     pi_c = S.as_sc(math.pi)
     eps = 1e-7
